@@ -6,6 +6,7 @@ package vnet
 import (
 	"errors"
 	"net"
+	"strings"
 	"syscall"
 	"time"
 
@@ -86,7 +87,7 @@ func Dial(network, address string) (net.Conn, error) {
 func InterfaceByName(name string) (*net.Interface, error) {
 	if k := vsys.Active(); k != nil {
 		if i, ok := k.InterfaceByName(name); ok {
-			return &net.Interface{Index: i.Index, Name: i.Name}, nil
+			return &net.Interface{Index: i.Index, Name: strings.Clone(i.Name)}, nil
 		}
 		return nil, errors.New("route ip+net: no such network interface")
 	}
@@ -96,7 +97,7 @@ func InterfaceByName(name string) (*net.Interface, error) {
 func InterfaceByIndex(index int) (*net.Interface, error) {
 	if k := vsys.Active(); k != nil {
 		if i, ok := k.InterfaceByIndex(index); ok {
-			return &net.Interface{Index: i.Index, Name: i.Name}, nil
+			return &net.Interface{Index: i.Index, Name: strings.Clone(i.Name)}, nil
 		}
 		return nil, errors.New("route ip+net: no such network interface")
 	}
